@@ -199,7 +199,12 @@ fn resolve(t: &Tree, p: &str) -> Option<String> {
     let mut parts: Vec<&str> = vec![];
     for c in p.split('/') {
         match c {
-            "" | "." => {}
+            "" | "." => {
+                // (`file/.` and `file/` do not name the file)
+                if matches!(t.get(&parts.join("/")), Some(Node::File(_))) {
+                    return None;
+                }
+            }
             ".." => {
                 let cur = parts.join("/");
                 if !matches!(t.get(&cur), Some(Node::Dir)) || parts.len() <= 1 {
@@ -211,6 +216,12 @@ fn resolve(t: &Tree, p: &str) -> Option<String> {
         }
     }
     Some(parts.join("/"))
+}
+
+/// the spelling ends with a `.` or `..` component: it names a directory through itself or through a child
+fn ends_in_dots(p: &str) -> bool {
+    let last = p.trim_end_matches('/').rsplit('/').next().unwrap_or("");
+    last == "." || last == ".."
 }
 
 /// like `resolve`, for the TARGET of cp / mv: a `..` may also step back out of a directory that does not exist yet
@@ -347,7 +358,9 @@ fn run_case(case: &Case) -> Verdict {
             match resolve(&t, p) {
                 Some(c) => canonical.push(c),
                 None => {
-                    let target_of_cp_mv = j == 1 && matches!(op, Op::Cp(_, _) | Op::Mv(_, _));
+                    // (touch creates the missing parent directories too, and is documented never to modify a file
+                    // that exists)
+                    let target_of_cp_mv = (j == 1 && matches!(op, Op::Cp(_, _) | Op::Mv(_, _))) || matches!(op, Op::Touch(_));
                     match resolve_creating(&t, p) {
                         // (a spelling that first creates the target itself as a directory - `nodir/../nodir` - is left
                         // with the unsettled ones)
@@ -379,6 +392,7 @@ fn run_case(case: &Case) -> Verdict {
             continue;
         }
         let aliased = canonical != spelled;
+        let dotted = spelled.iter().any(|p| ends_in_dots(p));
         let canon_op = with_paths(op, &canonical);
         // (a multi-path rm changes the tree between its paths: a spelling through a directory that an earlier path
         // removes would no longer resolve; such lists are given in canonical form)
@@ -540,6 +554,9 @@ fn run_case(case: &Case) -> Verdict {
                     world.op("touch", &[p.clone()], &Want::Fail, &[p.clone()]);
                     sim::with_core(|c| *c.fired.entry("F8".to_string()).or_insert(0) += 1);
                 } else {
+                    if !created_on_the_way.is_empty() {
+                        sim::with_core(|c| c.probe(if t.contains_key(p) { "touch-existing-file-spelled-through-a-missing-directory" } else { "touch-spelled-through-a-missing-directory" }));
+                    }
                     world.op("touch", &[p.clone()], &Want::True, &[p.clone()]);
                     ensure_parents(&mut t, p);
                     t.entry(p.clone()).or_insert(Node::File(vec![]));
@@ -655,6 +672,20 @@ fn run_case(case: &Case) -> Verdict {
                         world.op("rm", &args, &Want::True, &args);
                         t.remove(p);
                     }
+                    Some(Node::Dir) if dotted => {
+                        // a directory named through itself (`d/.`) or through a child (`d/sub/..`): rm(1) refuses
+                        // these, the statement's model takes the path for what it names. Either is accepted, but
+                        // answer and tree must agree: removed and true, or refused and nothing touched
+                        let got = world.op("rm", &args, &Want::Any, &args);
+                        sim::with_core(|c| c.probe("rm-directory-spelled-with-trailing-dots"));
+                        if !got.is_fail() && (!has_children(&t, p) || *rec) {
+                            remove_subtree(&mut t, p);
+                            if p == ROOT {
+                                let _ = std::fs::create_dir_all(ROOT);
+                                t.insert(ROOT.to_string(), Node::Dir);
+                            }
+                        }
+                    }
                     Some(Node::Dir) => {
                         if has_children(&t, p) && !*rec {
                             world.op("rm", &args, &Want::Fail, &args);
@@ -727,6 +758,17 @@ fn run_case(case: &Case) -> Verdict {
                 }
                 Some(Node::File(_)) => {
                     world.op("rmdir", &[p.clone()], &Want::Fail, &[p.clone()]);
+                }
+                Some(Node::Dir) if dotted => {
+                    let got = world.op("rmdir", &[p.clone()], &Want::Any, &[p.clone()]);
+                    sim::with_core(|c| c.probe("rmdir-directory-spelled-with-trailing-dots"));
+                    if !got.is_fail() && !has_children(&t, p) {
+                        t.remove(p);
+                        if p == ROOT {
+                            let _ = std::fs::create_dir_all(ROOT);
+                            t.insert(ROOT.to_string(), Node::Dir);
+                        }
+                    }
                 }
                 Some(Node::Dir) => {
                     if has_children(&t, p) {
@@ -896,6 +938,14 @@ fn alias_of(rng: &mut Rng, p: &str) -> String {
     v.join("/")
 }
 
+fn dotted_spelling(rng: &mut Rng, p: &str) -> String {
+    match rng.below(3) {
+        0 => format!("{}/.", p),
+        1 => format!("{}/{}/..", p, rng.pick(&["d2", "d1", "nodir"])),
+        _ => format!("{}/./", p),
+    }
+}
+
 fn gen_op(rng: &mut Rng) -> Op {
     let op = gen_op_raw(rng);
     // the same file named twice, once through an alias (`dir/..`, `.`, `//`)
@@ -917,6 +967,13 @@ fn gen_op(rng: &mut Rng) -> Op {
         }
     } else {
         op
+    };
+    // a directory named through itself or through a child: `d/.`, `d/d2/..`
+    let op = match &op {
+        Op::Rm(p, r) if rng.chance(1, 10) => Op::Rm(dotted_spelling(rng, p), *r),
+        Op::Rmdir(p) if rng.chance(1, 8) => Op::Rmdir(dotted_spelling(rng, p)),
+        Op::IsDir(p) | Op::Exists(p) if rng.chance(1, 10) => with_paths(&op, &[dotted_spelling(rng, p)]),
+        _ => op,
     };
     match &op {
         // a directory copied or moved into itself (or the run directory as a source) is pathological and outside
